@@ -38,6 +38,24 @@ pub struct Validator {
 
 impl Validator {
     pub fn new(tlds: Vec<ToplevelDefinition>) -> Validator {
+        #[cfg(rasn_verif)]
+        {
+            let mut seen = HashSet::<&String>::new();
+            for tld in &tlds {
+                let replaces = !seen.insert(tld.name());
+                crate::verif::emit("insert", || {
+                    format!(
+                        "\"name\":{},\"module\":{},\"replaces\":{replaces}",
+                        crate::verif::s(tld.name()),
+                        crate::verif::s(
+                            &tld.get_module_header()
+                                .map(|h| h.borrow().name.clone())
+                                .unwrap_or_default()
+                        )
+                    )
+                });
+            }
+        }
         Self {
             tlds: tlds
                 .into_iter()
@@ -376,6 +394,14 @@ impl Validator {
         Ok(self.tlds.into_iter().fold(
             (Vec::<ToplevelDefinition>::new(), warnings),
             |(mut tlds, mut errors), (_, tld)| {
+                #[cfg(rasn_verif)]
+                crate::verif::emit("validate", || {
+                    format!(
+                        "\"name\":{},\"ok\":{}",
+                        crate::verif::s(tld.name()),
+                        tld.validate().is_ok()
+                    )
+                });
                 match tld.validate() {
                     Ok(_) => tlds.push(tld),
                     Err(e) => errors.push(e.into()),
